@@ -251,11 +251,14 @@ def judgeAccepted (env : Env) (s : State) (c : Call) (r : Response) (s' : State)
     let v := if exact then v.check "C03" "C03_whole" (C03_whole s b p sz)
              else v.check "C03" "C03_whole_inexact" (C03_whole s b p sz)
     let v := if exact then v.check "C09" "C09_askFeeOK" (C09_askFeeOK ct s b p sz r) else v
+    let v := v.check "C17" "C17_feesPaidOK" (C17_feesPaidOK ct s b r)
     if exact then v.check "C02" "C02_matchOK" (C02_matchOK ct s a b p sz r s')
     else v.check "C02" "C02_matchOK_inexact" (C02_matchOK ct s a b p sz r s')
   | .cancelAsk id =>
     let v := v.check "C04" "C04_askOK" (C04_askOK ct s id none r s')
     let v := if sane s then v.check "C08" "C08_releaseOK" (C08_releaseOK ct s id r s') else v
+    -- what get-ask reports (the stored order) is what this cancel returns
+    let v := v.check "C16" "C16_cancelReturnsReported" (C06_askExitOK ct s id r s')
     v.check "C06" "C06_askExitOK" (C06_askExitOK ct s id r s')
   | .expireAsk id =>
     let v := v.check "C04" "C04_askOK" (C04_askOK ct s id none r s')
@@ -266,6 +269,7 @@ def judgeAccepted (env : Env) (s : State) (c : Call) (r : Response) (s' : State)
     v.check "C04" "C04_askOK" (C04_askOK ct s id sz r s')
   | .cancelBid id =>
     let v := v.check "C04" "C04_bidOK" (C04_bidOK ct s id none r s')
+    let v := v.check "C16" "C16_cancelReturnsReported" (C06_bidExitOK ct s id r s')
     v.check "C06" "C06_bidExitOK" (C06_bidExitOK ct s id r s')
   | .expireBid id =>
     let v := v.check "C04" "C04_bidOK" (C04_bidOK ct s id none r s')
